@@ -281,6 +281,7 @@ theorem kind_text_shape (k : LKind) : ∃ (i : List Char) (c : Char), k.text.toL
   · exact ⟨".ifen".toList, 'd', by decide, by decide⟩
   · exact ⟨".els".toList, 'e', by decide, by decide⟩
   · exact ⟨".ifher".toList, 'e', by decide, by decide⟩
+  · exact ⟨".ifstar".toList, 't', by decide, by decide⟩
   · exact ⟨".whil".toList, 'e', by decide, by decide⟩
   · exact ⟨".whileen".toList, 'd', by decide, by decide⟩
   · exact ⟨".dowhil".toList, 'e', by decide, by decide⟩
@@ -332,35 +333,81 @@ theorem nodup_two {g g1 : GState} {c1 : List GLine} {r : List GLine × GState}
   refine ⟨n1, n2, ?_⟩
   intro a ha b hb hab
   subst hab
-  have x : a.n ≤ g1.ctr a.kind.ctr := (h1.2 a ha).2
-  have y : g1.ctr a.kind.ctr < a.n := (h2.2 a hb).1
+  have x : a.idx ≤ g1.ctr a.kind.ctr := (h1.2 a ha).2
+  have y : g1.ctr a.kind.ctr < a.idx := (h2.2 a hb).1
   omega
 
 theorem branchInstr_nodup (g : GState) (op : COp) (label : Lbl) : (labels (branchInstr g op label).1).Nodup := by
   cases op <;> simp [branchInstr]
 
-theorem genCond_nodup (g : GState) (c : Cond) (negate : Bool) (label : Lbl) : (labels (genCond g c negate label).1).Nodup := by
-  have hz : ∀ v op, (labels (zeroTest g v op label).1).Nodup := by
-    intro v op
+theorem genCond_nodup (c : Cond) : ∀ (g : GState) (negate : Bool) (label : Lbl), (labels (genCond g c negate label).1).Nodup := by
+  have hz : ∀ g v op label, (labels (zeroTest g v op label).1).Nodup := by
+    intro g v op label
     unfold zeroTest
     by_cases h : g.flags = some v <;> cases op <;> simp [h]
-  have hc : ∀ v right op, (labels (cmpTest g v right op label).1).Nodup := by
-    intro v right op
+  have hc : ∀ g v right op label, (labels (cmpTest g v right op label).1).Nodup := by
+    intro g v right op label
     simp [cmpTest, branchInstr_nodup]
-  cases c with
+  induction c with
   | cmp op a b =>
+    intro g negate label
     simp only [genCond, genCondEx]
     split
     · simp
     · split
-      · exact hz _ _
-      · exact hc _ _ _
-  | truth v => exact hz _ _
-  | nottruth v => exact hz _ _
+      · exact hz _ _ _ _
+      · exact hc _ _ _ _ _
+  | truth v => intro g negate label; exact hz _ _ _ _
+  | nottruth v => intro g negate label; exact hz _ _ _ _
+  | not c ih => intro g negate label; simp only [genCond]; exact ih ..
+  | and a b iha ihb =>
+    intro g negate label
+    cases negate with
+    | true =>
+      simp only [genCond]
+      exact nodup_two (genCond_fresh a g true label) (genCond_fresh b _ true label) (iha ..) (ihb ..)
+    | false =>
+      simp only [genCond]
+      have f1 := genCond_fresh a { g with cIf := g.cIf + 1 } true ⟨.ifstart, g.cIf⟩
+      have f2 := genCond_fresh b (genCond { g with cIf := g.cIf + 1 } a true ⟨.ifstart, g.cIf⟩).2 false label
+      have h2 := nodup_two f1 f2 (iha ..) (ihb ..)
+      rw [labels_append, List.nodup_append]
+      refine ⟨h2, by simp, ?_⟩
+      intro x hx y hy hxy
+      simp at hy
+      subst hxy; subst hy
+      simp at hx
+      have k1 := f1.1 .cIf
+      simp [GState.ctr] at k1
+      rcases hx with hx | hx
+      · have := (f1.2 _ hx).1; simp [LKind.ctr, GState.ctr, Lbl.idx] at this
+      · have := (f2.2 _ hx).1; simp [LKind.ctr, GState.ctr, Lbl.idx] at this; omega
+  | or a b iha ihb =>
+    intro g negate label
+    cases negate with
+    | false =>
+      simp only [genCond]
+      exact nodup_two (genCond_fresh a g false label) (genCond_fresh b _ false label) (iha ..) (ihb ..)
+    | true =>
+      simp only [genCond]
+      have f1 := genCond_fresh a { g with cIf := g.cIf + 1 } false ⟨.ifstart, g.cIf⟩
+      have f2 := genCond_fresh b (genCond { g with cIf := g.cIf + 1 } a false ⟨.ifstart, g.cIf⟩).2 true label
+      have h2 := nodup_two f1 f2 (iha ..) (ihb ..)
+      rw [labels_append, List.nodup_append]
+      refine ⟨h2, by simp, ?_⟩
+      intro x hx y hy hxy
+      simp at hy
+      subst hxy; subst hy
+      simp at hx
+      have k1 := f1.1 .cIf
+      simp [GState.ctr] at k1
+      rcases hx with hx | hx
+      · have := (f1.2 _ hx).1; simp [LKind.ctr, GState.ctr, Lbl.idx] at this
+      · have := (f2.2 _ hx).1; simp [LKind.ctr, GState.ctr, Lbl.idx] at this; omega
 
 /-- a label allocated at or before `gx` is not defined by code generated from `gx` on -/
 theorem not_in_fresh {gx : GState} {r : List GLine × GState} {l : Lbl} (hf : Fresh gx r)
-    (hl : l.n ≤ gx.ctr l.kind.ctr) : l ∉ labels r.1 := by
+    (hl : l.idx ≤ gx.ctr l.kind.ctr) : l ∉ labels r.1 := by
   intro h
   have := (hf.2 l h).1
   omega
@@ -383,7 +430,7 @@ theorem gen_labels_nodup (st : SStmt) : ∀ g : GState, (labels (gen g st).1).No
     rcases hct : gen g1 t with ⟨ct, g2⟩
     have hc : Fresh { g with cIf := g.cIf + 1 } (cc, g1) := hcc ▸ genCond_fresh ..
     have ht : Fresh g1 (ct, g2) := hct ▸ gen_fresh t g1
-    have nc : (labels cc).Nodup := by have := genCond_nodup { g with cIf := g.cIf + 1 } c true ⟨.ifend, g.cIf + 1⟩; rwa [hcc] at this
+    have nc : (labels cc).Nodup := by have := genCond_nodup c { g with cIf := g.cIf + 1 } true ⟨.ifend, g.cIf + 1⟩; rwa [hcc] at this
     have nt : (labels ct).Nodup := by have := iht g1; rwa [hct] at this
     have h2 := nodup_two hc ht nc nt
     have k1 := le_ctr hc .cIf
@@ -396,30 +443,30 @@ theorem gen_labels_nodup (st : SStmt) : ∀ g : GState, (labels (gen g st).1).No
     subst hab; subst hb
     simp at ha
     rcases ha with ha | ha
-    · exact not_in_fresh hc (by simp [LKind.ctr, GState.ctr]) ha
-    · exact not_in_fresh ht (by simp [LKind.ctr, GState.ctr]; omega) ha
+    · exact not_in_fresh hc (by simp [LKind.ctr, GState.ctr, Lbl.idx]) ha
+    · exact not_in_fresh ht (by simp [LKind.ctr, GState.ctr, Lbl.idx]; omega) ha
   | ifElse c t e iht ihe =>
     intro g
     simp only [gen]
     rcases hcc : genCond { g with cIf := g.cIf + 1 } c true ⟨.else_, g.cIf + 1⟩ with ⟨cc, g1⟩
     rcases hct : gen g1 t with ⟨ct, g2⟩
-    rcases hce : gen { g2 with flags := g1.flags } e with ⟨ce, g3⟩
+    rcases hce : gen { g2 with flags := if c.singleExit then g1.flags else none } e with ⟨ce, g3⟩
     have hc : Fresh { g with cIf := g.cIf + 1 } (cc, g1) := hcc ▸ genCond_fresh ..
     have ht : Fresh g1 (ct, g2) := hct ▸ gen_fresh t g1
     have he : Fresh g2 (ce, g3) := by
-      have := gen_fresh e { g2 with flags := g1.flags }
+      have := gen_fresh e { g2 with flags := if c.singleExit then g1.flags else none }
       rw [hce, fresh_flags_left] at this
       exact this
-    have nc : (labels cc).Nodup := by have := genCond_nodup { g with cIf := g.cIf + 1 } c true ⟨.else_, g.cIf + 1⟩; rwa [hcc] at this
+    have nc : (labels cc).Nodup := by have := genCond_nodup c { g with cIf := g.cIf + 1 } true ⟨.else_, g.cIf + 1⟩; rwa [hcc] at this
     have nt : (labels ct).Nodup := by have := iht g1; rwa [hct] at this
-    have ne : (labels ce).Nodup := by have := ihe { g2 with flags := g1.flags }; rwa [hce] at this
+    have ne : (labels ce).Nodup := by have := ihe { g2 with flags := if c.singleExit then g1.flags else none }; rwa [hce] at this
     have k1 := le_ctr hc .cIf
     have k2 := le_ctr ht .cIf
     simp [GState.ctr] at k1 k2
     have h3 : (labels (cc ++ ct ++ ce)).Nodup := nodup_two (fresh_append hc ht) he (nodup_two hc ht nc nt) ne
     dsimp only at h3 ⊢
     -- the two own labels are distinct from each other and from everything generated inside
-    have key : ∀ l : Lbl, l.n = g.cIf + 1 → l.kind.ctr = .cIf → l ∉ labels (cc ++ ct ++ ce) := by
+    have key : ∀ l : Lbl, l.idx = g.cIf + 1 → l.kind.ctr = .cIf → l ∉ labels (cc ++ ct ++ ce) := by
       intro l hn hk hin
       simp at hin
       rcases hin with hin | hin | hin
@@ -454,13 +501,13 @@ theorem gen_labels_nodup (st : SStmt) : ∀ g : GState, (labels (gen g st).1).No
     have hc : Fresh { g with cWhile := g.cWhile + 1, flags := none } (cc, g1) := hcc ▸ genCond_fresh ..
     have hb : Fresh g1 (cb, g2) := hcb ▸ gen_fresh b g1
     have nc : (labels cc).Nodup := by
-      have := genCond_nodup { g with cWhile := g.cWhile + 1, flags := none } c true ⟨.whileend, g.cWhile + 1⟩; rwa [hcc] at this
+      have := genCond_nodup c { g with cWhile := g.cWhile + 1, flags := none } true ⟨.whileend, g.cWhile + 1⟩; rwa [hcc] at this
     have nb : (labels cb).Nodup := by have := ihb g1; rwa [hcb] at this
     have k1 := le_ctr hc .cWhile
     simp [GState.ctr] at k1
     have h2 : (labels (cc ++ cb)).Nodup := nodup_two hc hb nc nb
     dsimp only at h2 ⊢
-    have key : ∀ l : Lbl, l.n = g.cWhile + 1 → l.kind.ctr = .cWhile → l ∉ labels (cc ++ cb) := by
+    have key : ∀ l : Lbl, l.idx = g.cWhile + 1 → l.kind.ctr = .cWhile → l ∉ labels (cc ++ cb) := by
       intro l hn hk hin
       simp at hin
       rcases hin with hin | hin
@@ -488,12 +535,12 @@ theorem gen_labels_nodup (st : SStmt) : ∀ g : GState, (labels (gen g st).1).No
     have hb : Fresh { g with cWhile := g.cWhile + 1, flags := none } (cb, g1) := hcb ▸ gen_fresh b _
     have hc : Fresh g1 (cc, g2) := hcc ▸ genCond_fresh ..
     have nb : (labels cb).Nodup := by have := ihb { g with cWhile := g.cWhile + 1, flags := none }; rwa [hcb] at this
-    have nc : (labels cc).Nodup := by have := genCond_nodup g1 c false ⟨.dowhile, g.cWhile + 1⟩; rwa [hcc] at this
+    have nc : (labels cc).Nodup := by have := genCond_nodup c g1 false ⟨.dowhile, g.cWhile + 1⟩; rwa [hcc] at this
     have k1 := le_ctr hb .cWhile
     simp [GState.ctr] at k1
     have h2 : (labels (cb ++ cc)).Nodup := nodup_two hb hc nb nc
     dsimp only at h2 ⊢
-    have key : ∀ l : Lbl, l.n = g.cWhile + 1 → l.kind.ctr = .cWhile → l ∉ labels (cb ++ cc) := by
+    have key : ∀ l : Lbl, l.idx = g.cWhile + 1 → l.kind.ctr = .cWhile → l ∉ labels (cb ++ cc) := by
       intro l hn hk hin
       simp at hin
       rcases hin with hin | hin
@@ -526,16 +573,16 @@ theorem gen_labels_nodup (st : SStmt) : ∀ g : GState, (labels (gen g st).1).No
       have : Fresh { g3 with flags := some (target u) } (c2, g5) := hc2 ▸ genCond_fresh ..
       rwa [fresh_flags_left] at this
     have n1 : (labels c1).Nodup := by
-      have := genCond_nodup { g with cFor := g.cFor + 1, flags := some (target i) } c true ⟨.forend, g.cFor + 1⟩; rwa [hc1] at this
+      have := genCond_nodup c { g with cFor := g.cFor + 1, flags := some (target i) } true ⟨.forend, g.cFor + 1⟩; rwa [hc1] at this
     have nb : (labels cb).Nodup := by have := ihb { g2 with flags := none }; rwa [hcb] at this
     have n2 : (labels c2).Nodup := by
-      have := genCond_nodup { g3 with flags := some (target u) } c false ⟨.for_, g.cFor + 1⟩; rwa [hc2] at this
+      have := genCond_nodup c { g3 with flags := some (target u) } false ⟨.for_, g.cFor + 1⟩; rwa [hc2] at this
     have k1 := le_ctr hf1 .cFor
     have k2 := le_ctr hfb .cFor
     simp [GState.ctr] at k1 k2
     have h3 : (labels (c1 ++ cb ++ c2)).Nodup := nodup_two (fresh_append hf1 hfb) hf2 (nodup_two hf1 hfb n1 nb) n2
     dsimp only at h3 ⊢
-    have key : ∀ l : Lbl, l.n = g.cFor + 1 → l.kind.ctr = .cFor → l ∉ labels (c1 ++ cb ++ c2) := by
+    have key : ∀ l : Lbl, l.idx = g.cFor + 1 → l.kind.ctr = .cFor → l ∉ labels (c1 ++ cb ++ c2) := by
       intro l hn hk hin
       simp at hin
       rcases hin with hin | hin | hin
@@ -610,32 +657,78 @@ theorem targets_flatLines (s : FStmt) : targets (flatLines s) = [] := by
   | cons x xs ih => simpa using ih
 
 /-- condition code only branches to the label it was given or to a label it defines itself -/
-theorem genCond_targets (g : GState) (c : Cond) (negate : Bool) (label : Lbl) :
+theorem genCond_targets (c : Cond) : ∀ (g : GState) (negate : Bool) (label : Lbl),
     ∀ l ∈ targets (genCond g c negate label).1, l = label ∨ l ∈ labels (genCond g c negate label).1 := by
-  have hb : ∀ g' op, ∀ l ∈ targets (branchInstr g' op label).1, l = label ∨ l ∈ labels (branchInstr g' op label).1 := by
-    intro g' op l hl
+  have hb : ∀ g' op label, ∀ l ∈ targets (branchInstr g' op label).1, l = label ∨ l ∈ labels (branchInstr g' op label).1 := by
+    intro g' op label l hl
     cases op <;> simp [branchInstr] at hl ⊢ <;> (try exact hl)
     rcases hl with hl | hl
     · exact Or.inr hl
     · exact Or.inl hl
-  have hz : ∀ v op, ∀ l ∈ targets (zeroTest g v op label).1, l = label ∨ l ∈ labels (zeroTest g v op label).1 := by
-    intro v op l hl
+  have hz : ∀ g v op label, ∀ l ∈ targets (zeroTest g v op label).1, l = label ∨ l ∈ labels (zeroTest g v op label).1 := by
+    intro g v op label l hl
     unfold zeroTest at hl ⊢
     by_cases h : g.flags = some v <;> cases op <;> simp [h] at hl ⊢ <;> exact hl
-  have hc : ∀ v right op, ∀ l ∈ targets (cmpTest g v right op label).1, l = label ∨ l ∈ labels (cmpTest g v right op label).1 := by
-    intro v right op l hl
+  have hc : ∀ g v right op label, ∀ l ∈ targets (cmpTest g v right op label).1, l = label ∨ l ∈ labels (cmpTest g v right op label).1 := by
+    intro g v right op label l hl
     simp [cmpTest] at hl ⊢
-    exact hb _ _ l hl
-  cases c with
+    exact hb _ _ _ l hl
+  induction c with
   | cmp op a b =>
+    intro g negate label
     simp only [genCond, genCondEx]
     split
     · intro l hl; simp at hl
     · split
-      · exact hz _ _
-      · exact hc _ _ _
-  | truth v => exact hz _ _
-  | nottruth v => exact hz _ _
+      · exact hz _ _ _ _
+      · exact hc _ _ _ _ _
+  | truth v => intro g negate label; exact hz _ _ _ _
+  | nottruth v => intro g negate label; exact hz _ _ _ _
+  | not c ih => intro g negate label; simp only [genCond]; exact ih g (!negate) label
+  | and a b iha ihb =>
+    intro g negate label l hl
+    cases negate with
+    | true =>
+      simp only [genCond, targets_append, labels_append, List.mem_append] at hl ⊢
+      rcases hl with hl | hl
+      · rcases iha _ _ _ l hl with h | h
+        · exact Or.inl h
+        · exact Or.inr (Or.inl h)
+      · rcases ihb _ _ _ l hl with h | h
+        · exact Or.inl h
+        · exact Or.inr (Or.inr h)
+    | false =>
+      simp only [genCond] at hl ⊢
+      simp at hl ⊢
+      rcases hl with hl | hl
+      · rcases iha _ _ _ l hl with h | h
+        · exact Or.inr (Or.inr (Or.inr h))
+        · exact Or.inr (Or.inl h)
+      · rcases ihb _ _ _ l hl with h | h
+        · exact Or.inl h
+        · exact Or.inr (Or.inr (Or.inl h))
+  | or a b iha ihb =>
+    intro g negate label l hl
+    cases negate with
+    | false =>
+      simp only [genCond, targets_append, labels_append, List.mem_append] at hl ⊢
+      rcases hl with hl | hl
+      · rcases iha _ _ _ l hl with h | h
+        · exact Or.inl h
+        · exact Or.inr (Or.inl h)
+      · rcases ihb _ _ _ l hl with h | h
+        · exact Or.inl h
+        · exact Or.inr (Or.inr h)
+    | true =>
+      simp only [genCond] at hl ⊢
+      simp at hl ⊢
+      rcases hl with hl | hl
+      · rcases iha _ _ _ l hl with h | h
+        · exact Or.inr (Or.inr (Or.inr h))
+        · exact Or.inr (Or.inl h)
+      · rcases ihb _ _ _ l hl with h | h
+        · exact Or.inl h
+        · exact Or.inr (Or.inr (Or.inl h))
 
 /-- no branch or jump of a statement's code leaves the code: every target is a label defined in it -/
 theorem gen_targets_defined (st : SStmt) : ∀ g : GState, ∀ l ∈ targets (gen g st).1, l ∈ labels (gen g st).1 := by
@@ -651,7 +744,7 @@ theorem gen_targets_defined (st : SStmt) : ∀ g : GState, ∀ l ∈ targets (ge
   | ifThen c t iht =>
     intro g l hl
     simp only [gen] at hl ⊢
-    have hc := genCond_targets { g with cIf := g.cIf + 1 } c true ⟨.ifend, g.cIf + 1⟩
+    have hc := genCond_targets c { g with cIf := g.cIf + 1 } true ⟨.ifend, g.cIf + 1⟩
     rcases hcc : genCond { g with cIf := g.cIf + 1 } c true ⟨.ifend, g.cIf + 1⟩ with ⟨cc, g1⟩
     rw [hcc] at hc hl
     have ht := iht g1
@@ -666,14 +759,14 @@ theorem gen_targets_defined (st : SStmt) : ∀ g : GState, ∀ l ∈ targets (ge
   | ifElse c t e iht ihe =>
     intro g l hl
     simp only [gen] at hl ⊢
-    have hc := genCond_targets { g with cIf := g.cIf + 1 } c true ⟨.else_, g.cIf + 1⟩
+    have hc := genCond_targets c { g with cIf := g.cIf + 1 } true ⟨.else_, g.cIf + 1⟩
     rcases hcc : genCond { g with cIf := g.cIf + 1 } c true ⟨.else_, g.cIf + 1⟩ with ⟨cc, g1⟩
     rw [hcc] at hc hl
     have ht := iht g1
     rcases hct : gen g1 t with ⟨ct, g2⟩
     rw [hct] at ht hl
-    have he := ihe { g2 with flags := g1.flags }
-    rcases hce : gen { g2 with flags := g1.flags } e with ⟨ce, g3⟩
+    have he := ihe { g2 with flags := if c.singleExit then g1.flags else none }
+    rcases hce : gen { g2 with flags := if c.singleExit then g1.flags else none } e with ⟨ce, g3⟩
     rw [hce] at he hl
     simp at hl ⊢
     rcases hl with hl | hl | hl | hl
@@ -686,7 +779,7 @@ theorem gen_targets_defined (st : SStmt) : ∀ g : GState, ∀ l ∈ targets (ge
   | «while» c b ihb =>
     intro g l hl
     simp only [gen] at hl ⊢
-    have hc := genCond_targets { g with cWhile := g.cWhile + 1, flags := none } c true ⟨.whileend, g.cWhile + 1⟩
+    have hc := genCond_targets c { g with cWhile := g.cWhile + 1, flags := none } true ⟨.whileend, g.cWhile + 1⟩
     rcases hcc : genCond { g with cWhile := g.cWhile + 1, flags := none } c true ⟨.whileend, g.cWhile + 1⟩ with ⟨cc, g1⟩
     rw [hcc] at hc hl
     have hb := ihb g1
@@ -705,7 +798,7 @@ theorem gen_targets_defined (st : SStmt) : ∀ g : GState, ∀ l ∈ targets (ge
     have hb := ihb { g with cWhile := g.cWhile + 1, flags := none }
     rcases hcb : gen { g with cWhile := g.cWhile + 1, flags := none } b with ⟨cb, g1⟩
     rw [hcb] at hb hl
-    have hc := genCond_targets g1 c false ⟨.dowhile, g.cWhile + 1⟩
+    have hc := genCond_targets c g1 false ⟨.dowhile, g.cWhile + 1⟩
     rcases hcc : genCond g1 c false ⟨.dowhile, g.cWhile + 1⟩ with ⟨cc, g2⟩
     rw [hcc] at hc hl
     simp at hl ⊢
@@ -717,13 +810,13 @@ theorem gen_targets_defined (st : SStmt) : ∀ g : GState, ∀ l ∈ targets (ge
   | «for» i c u b ihb =>
     intro g l hl
     simp only [gen, genFlat] at hl ⊢
-    have h1 := genCond_targets { g with cFor := g.cFor + 1, flags := some (target i) } c true ⟨.forend, g.cFor + 1⟩
+    have h1 := genCond_targets c { g with cFor := g.cFor + 1, flags := some (target i) } true ⟨.forend, g.cFor + 1⟩
     rcases hc1 : genCond { g with cFor := g.cFor + 1, flags := some (target i) } c true ⟨.forend, g.cFor + 1⟩ with ⟨c1, g2⟩
     rw [hc1] at h1 hl
     have hb := ihb { g2 with flags := none }
     rcases hcb : gen { g2 with flags := none } b with ⟨cb, g3⟩
     rw [hcb] at hb hl
-    have h2 := genCond_targets { g3 with flags := some (target u) } c false ⟨.for_, g.cFor + 1⟩
+    have h2 := genCond_targets c { g3 with flags := some (target u) } false ⟨.for_, g.cFor + 1⟩
     rcases hc2 : genCond { g3 with flags := some (target u) } c false ⟨.for_, g.cFor + 1⟩ with ⟨c2, g5⟩
     rw [hc2] at h2 hl
     simp [targets_flatLines, labels_flatLines] at hl ⊢
